@@ -77,6 +77,14 @@ pub fn describe_quantity(q: &Quantity) -> QDesc {
     }
 }
 
+/// description of a value if it is a quantity (e.g. the displayed result of an input)
+pub fn describe_value(v: &Value) -> Option<QDesc> {
+    match v {
+        Value::Quantity(q) => Some(describe_quantity(q)),
+        _ => None,
+    }
+}
+
 impl Context {
     /// every unit of the session with its direct definition, sorted by name
     pub fn verif_unit_table(&self) -> Vec<UnitRow> {
